@@ -6,7 +6,7 @@ from typing import Dict, List, Optional
 
 from .. import normal, consteval, guards, render, sym
 from ..model import AnalysisError, Repo
-from ..report import Run
+from ..report import Run, take_over
 from ..sym import T, const, param
 
 EXPLANATION = (
@@ -42,6 +42,8 @@ def thread_map_entries(repo: Repo, run: Run) -> None:
     """The version-3 thread-map chunk is an array of the same kd_threadmap entries as the version-2 header's: the entry
     layout C02/R3 establishes (tid u64, pid u32, NUL-terminated name in its 20-byte field) is what populates the tables
     here too, and so is the clear-then-fill discipline of set_thread_map (C02/R4)."""
+    if getattr(run, "is_probe", False):
+        return          # (a check run for its own obligations does not take over in turn)
     import ast
     from . import c02
     mod = repo.module("kd_buf_parser")
@@ -51,6 +53,7 @@ def thread_map_entries(repo: Repo, run: Run) -> None:
            "kd_v3_threadmap no longer uses the kd_threadmap entry layout shared with version 2: its entries are not judged",
            nontrivial=False)
     probe = Run("C02", run.tier, run.repo_root)
+    probe.is_probe = True
     try:
         c02.check(repo, probe)
     except AnalysisError:
@@ -96,6 +99,10 @@ def string_index_obligations(repo: Repo, run: Run) -> None:
 
 
 def check(repo: Repo, run: Run) -> None:
+    take_over(run, "c12", "C12", repo, lambda o: o["scope"] == "kevents" and o["rule"] in ("R1", "R2"), "R0",
+              "events listing", "PyKdebugParser.kevents draws every record of the dump through the container parser: a listing that "
+              "stops early (or reads another source) leaves the log records behind it undecoded, so they do not extend the "
+              "thread/process tables", 8)
     thread_map_entries(repo, run)
     string_index_obligations(repo, run)
     interp = sym.Interp(repo)
